@@ -11,6 +11,10 @@ impl Instant {
     pub uninterp spec fn t(&self) -> int;
     #[verifier::external_body]
     fn now() -> (r: Instant) { unimplemented!() }
+    #[verifier::external_body]
+    fn checked_duration_since(&self, earlier: Instant) -> (r: Option<Duration>)
+        ensures r is Some <==> self.t() >= earlier.t(), r is Some ==> r->Some_0.d() == self.t() - earlier.t()
+    { unimplemented!() }
 }
 impl Duration {
     pub uninterp spec fn d(&self) -> nat;
